@@ -232,6 +232,17 @@ func (in *Interp) assign(st *State, lhs ast.Expr, v Val, tok token.Token, rhs as
 			return
 		}
 		if tok == token.ASSIGN || tok == token.DEFINE {
+			// an array is a value: `a := x.field` copies the bytes, later writes into a[:] do not reach the field
+			if n, isArr := isByteArray(o.Type()); isArr {
+				if bv, ok := v.(BufV); ok {
+					if sb := st.bufs[bv.ID]; sb != nil && (sb.Origin == "field" || sb.Origin == "arg") {
+						nb := &BufObj{Origin: "make", Len: Const(n), Extent: Const(n), Pos: l.Pos()}
+						nb.Recs = append(nb.Recs, &Rec{Off: Const(0), W: Const(n), Kind: "bytes", Src: sb.Src, Pos: l.Pos(), Guard: in.guard(), Fn: in.fi.Key})
+						st.vars[o] = in.newBuf(st, nb)
+						return
+					}
+				}
+			}
 			st.vars[o] = v
 			return
 		}
@@ -627,6 +638,11 @@ func (in *Interp) execIf(st *State, x *ast.IfStmt) (*State, bool) {
 }
 
 func (in *Interp) evalCondSites(st *State, e ast.Expr) {
+	if be, ok := unparen(e).(*ast.BinaryExpr); ok && (be.Op == token.LAND || be.Op == token.LOR) {
+		in.evalCondSites(st, be.X)
+		in.underShortCircuit(st, be.X, be.Op == token.LAND, func() string { in.evalCondSites(st, be.Y); return "" })
+		return
+	}
 	// evaluating the condition visits the index/slice sites inside it
 	ast.Inspect(e, func(n ast.Node) bool {
 		switch n.(type) {
